@@ -209,19 +209,20 @@ def _read_parameters(
             # Try to use the annotation from the signature.
             try:
                 annotation = docstring.parent.parameters[name].annotation  # type: ignore[union-attr]
-            except (AttributeError, KeyError):
+            except (AttributeError, KeyError, AliasResolutionError, CyclicAliasError):
                 annotation = None
 
         try:
             default = docstring.parent.parameters[name].default  # type: ignore[union-attr]
-        except (AttributeError, KeyError):
+        except (AttributeError, KeyError, AliasResolutionError, CyclicAliasError):
             default = None
 
         if annotation is None:
             docstring_warning(docstring, line_number, f"No type or annotation for parameter '{name}'")
 
         if warn_unknown_params:
-            with suppress(AttributeError):  # For Parameters sections in objects without parameters.
+            # For Parameters sections in objects without parameters, or whose `__init__` method cannot be resolved.
+            with suppress(AttributeError, AliasResolutionError, CyclicAliasError):
                 params = docstring.parent.parameters  # type: ignore[union-attr]
                 if name not in params:
                     message = f"Parameter '{name}' does not appear in the function signature"
